@@ -15,9 +15,63 @@ use std::collections::BTreeSet;
 pub fn network_props() -> Vec<String> {
     vec!["a".to_string(), "b".to_string()]
 }
+/// The context the model checker itself works with: a parametrised network (explicit parameters `p`
+/// (zero-arity) and `f`, an implicit one for `b`) with two spare sets of state variables, so that the
+/// symbolic variables `a_extra_0`, `p`, `f[0]`, ... exist and are NOT network variables.
 fn context() -> SymbolicContext {
-    let bn = BooleanNetwork::try_from("a -> b\nb -| a\n").unwrap();
-    SymbolicContext::new(&bn).unwrap()
+    let bn = BooleanNetwork::try_from("a -> b\nb -| a\na -?? a\n$a: (p & a) | f(b)\n").unwrap();
+    biodivine_hctl_model_checker::mc_utils::get_extended_symbolic_graph(&bn, 2).unwrap().symbolic_context().clone()
+}
+
+/// Names of symbolic variables of the context that are not network variables, each used as a
+/// proposition in a few surroundings: preprocessing of the *tree* must fail (and of the text, when the
+/// name can be written in the concrete syntax).
+fn foreign_symbolic_names(rep: &mut Report, ctx: &SymbolicContext) {
+    let names: Vec<String> = ctx.bdd_variable_set().variables().iter().map(|v| ctx.bdd_variable_set().name_of(*v)).filter(|n| !network_props().contains(n)).collect();
+    let mut tried = 0u64;
+    for n in &names {
+        let prop = T::Prop(n.clone());
+        let shapes = vec![
+            prop.clone(),
+            T::un(Un::EF, prop.clone()),
+            T::Hy(Hy::Bind, "x".into(), None, Box::new(T::un(Un::AX, T::bin(Bi::And, prop.clone(), T::Var("x".into()))))),
+            T::Hy(Hy::Exists, "x".into(), None, Box::new(T::Hy(Hy::Jump, "x".into(), None, Box::new(prop.clone())))),
+            T::bin(Bi::And, T::Prop("a".into()), prop.clone()),
+        ];
+        for t in shapes {
+            tried += 1;
+            let r = guarded(std::panic::AssertUnwindSafe(|| validate_props_and_rename_vars(t.to_lib(), ctx)));
+            let what = match r {
+                Ok(Err(_)) => None,
+                Ok(Ok(res)) => Some(format!("accepted as {res} although `{n}` is the name of a symbolic variable that is not a network variable")),
+                Err(p) => Some(format!("panic: {p}")),
+            };
+            if let Some(w) = what {
+                rep.violations.push(Violation { case: json!({"kind": "prep_tree", "tree": t}), what: format!("tree {}: {w}", t.render()), size: t.size() });
+            }
+            if n.chars().all(|c| c.is_alphanumeric() || c == '_') {
+                tried += 1;
+                let text = t.render();
+                match guarded(std::panic::AssertUnwindSafe(|| parse_and_minimize_extended_formula(ctx, &text))) {
+                    Ok(Err(_)) => {}
+                    Ok(Ok(res)) => rep.violations.push(Violation { case: json!({"kind": "prep_tree", "tree": t}), what: format!("text {text}: accepted as {res} although `{n}` is not a network variable"), size: t.size() }),
+                    Err(p) => rep.violations.push(Violation { case: json!({"kind": "prep_tree", "tree": t}), what: format!("text {text}: panic: {p}"), size: t.size() }),
+                }
+            }
+        }
+    }
+    rep.evaluations += tried;
+    rep.set("foreign_symbolic_names", json!(names));
+}
+
+pub fn replay_tree(case: &Value) -> Option<String> {
+    let t: T = serde_json::from_value(case["tree"].clone()).ok()?;
+    let ctx = context();
+    match guarded(std::panic::AssertUnwindSafe(|| validate_props_and_rename_vars(t.to_lib(), &ctx))) {
+        Ok(Err(_)) => None,
+        Ok(Ok(res)) => Some(format!("accepted as {res}")),
+        Err(p) => Some(format!("panic: {p}")),
+    }
 }
 
 /// All C07 obligations for one input tree (given as `T`; it is printed, parsed by the library's
@@ -217,6 +271,7 @@ pub fn run(tier: &str) -> Result<Report, String> {
         "!{x} in %d%: 3{xx} in %d%: V{x_} in %e%: @{x_}: {x} & {xx}",
     ];
     let ctx = context();
+    foreign_symbolic_names(&mut rep, &ctx);
     for s in special {
         if let Ok(t) = crate::refparser::parse_str(s, true) {
             rep.evaluations += 1;
@@ -227,6 +282,6 @@ pub fn run(tier: &str) -> Result<Report, String> {
     }
     rep.sample(json!({"input": "(!{xx}: (3{x}: (@{xx}: {x})))", "expected_output": "(!{x}: (3{xx}: (@{x}: {xx})))"}));
     rep.sample(json!({"input": "(!{x}: (@{y}: a))", "expected": "Err (jump target y is free)"}));
-    rep.rule = format!("every tree with 1..{s_max} nodes over {} printed, parsed by the library and preprocessed against a network with variables a,b: accepted iff the independent scope checker accepts; output must equal the tree renamed by nesting depth, be de-Bruijn-equal to the input, have #quantified names = nesting depth = collect_unique_hctl_vars, consistent stored text, and be a fixed point of preprocessing; then every tree with up to 8 (thorough 9) nodes over the binder-focused tiny alphabet {{a, x, y, AX, &, !, 3, @}}; plus {} longer hand-written shapes; distinct_nontrivial = number of distinct accepted (well-scoped) trees", alpha.describe(), special.len());
+    rep.rule = format!("every tree with 1..{s_max} nodes over {} printed, parsed by the library and preprocessed against the extended symbolic context (2 spare variable sets) of a parametrised network with variables a,b: accepted iff the independent scope checker accepts; output must equal the tree renamed by nesting depth, be de-Bruijn-equal to the input, have #quantified names = nesting depth = collect_unique_hctl_vars, consistent stored text, and be a fixed point of preprocessing; then every tree with up to 8 (thorough 9) nodes over the binder-focused tiny alphabet {{a, x, y, AX, &, !, 3, @}}; plus {} longer hand-written shapes; plus every name of a symbolic variable of that context that is not a network variable (spare state variables, parameter variables) used as a proposition in 5 surroundings, as a tree and (where the syntax can spell it) as text: must be rejected; distinct_nontrivial = number of distinct accepted (well-scoped) trees", alpha.describe(), special.len());
     Ok(rep)
 }
